@@ -693,8 +693,7 @@ Qed.
 
 Lemma nfiles_nonneg K n : 0 < K -> 0 <= n -> 0 <= nfiles K n.
 Proof.
-  intros HK Hn. destruct (Z.lt_ge_cases (nfiles K n) 0) as [Hlt|]; [|assumption].
-  pose proof (proj1 (nfiles_spec K n (nfiles K n + 1) HK Hn)). nia.
+  intros HK Hn. pose proof (proj2 (nfiles_spec K n (-1) HK Hn) ltac:(lia)). lia.
 Qed.
 
 Definition chunk (K : Z) (p : list header) (j : nat) : list header :=
@@ -745,7 +744,7 @@ Proof.
       rewrite ?E1, ?E2;
       try (destruct (fst a <=? fst b) eqn:E3); try (destruct (fst b <=? fst a) eqn:E4);
       try lia; try reflexivity.
-    f_equal. exact IH.
+    all: f_equal; exact IH.
 Qed.
 
 Lemma sort_kv_perm {A} (l1 l2 : list (Z * A)) :
@@ -830,7 +829,7 @@ Proof.
       { apply find_from_None. rewrite !map_app in Hnd. apply NoDup_app in Hnd as [Hnd _].
         apply NoDup_app in Hnd as (_ & Hd & _). intros Hin. apply (Hd _ Hin).
         cbn [map]. apply elem_of_list_here. }
-      rewrite Hnone, Z.eqb_refl. f_equal. lia.
+      rewrite Hnone, Z.eqb_refl. f_equal; lia.
     + rewrite lookup_insert_ne by exact Hne. destruct (m !! id'); [reflexivity|].
       destruct (hid x =? id') eqn:E; [lia|reflexivity].
 Qed.
@@ -898,7 +897,7 @@ Lemma load_R K r st a :
     R K r' st (if saved a =? 0 then AState [genesis] 0
                else AState (take (Z.to_nat (saved a)) (chain a)) (saved a)).
 Proof.
-  intros HK [Hne Hnd Hh Hs Hl Hhs Hst].
+  intros HK [Hne Hnd Hh Hs Hl Hhs Hst]. unfold store in *.
   destruct (fidx_bounds K (chain a) HK Hne) as (Hf0 & HfK0 & Hfb).
   set (c := chain a) in *. set (n := saved a) in *.
   set (p := take (Z.to_nat n) c) in *.
@@ -906,11 +905,15 @@ Proof.
   assert (Hndp : NoDup (map hid p)) by (apply NoDup_map_take; exact Hnd).
   pose proof (store_size K p st HK Hst) as Hsz.
   assert (Hfuel : zlen p - 0 * K <= (Z.of_nat (S (size st)) - 1) * K).
-  { pose proof (nfiles_spec K (zlen p) (nfiles K (zlen p)) HK ltac:(lia)). lia. }
+  { replace (Z.of_nat (S (size st)) - 1) with (nfiles K (zlen p)) by lia.
+    pose proof (nfiles_spec K (zlen p) (nfiles K (zlen p)) HK ltac:(lia)). lia. }
   destruct (load_loop_spec K p st HK Hst Hndp (S (size st)) 0 (-1) new_repo)
     as (g' & r' & Hload & Hg' & Hz & Hpos); try reflexivity; try lia.
-  { intros id. reflexivity. }
-  unfold load. rewrite Hload. destruct (g' =? 0) eqn:E.
+  { change (height new_repo) with (-1). pose proof (zlen_nonneg p). lia. }
+  { intros id. change (heights new_repo) with (∅ : gmap Z Z). rewrite lookup_empty.
+    pose proof (zlen_nonneg p).
+    replace (Z.to_nat ((0 * K) `min` zlen p)) with 0%nat by lia. reflexivity. }
+  unfold load. unfold store. rewrite Hload. destruct (g' =? 0) eqn:E.
   - assert (g' = 0) by lia. subst g'. destruct (Hz eq_refl) as [-> Hn0].
     eexists. split; [reflexivity|]. destruct (n =? 0) eqn:E2; [|lia].
     pose proof (R_init K HK) as HRi. destruct HRi as [H1 H2 H3 H4 H5 H6 H7].
@@ -919,6 +922,7 @@ Proof.
     rewrite !file_at_None; [reflexivity|exact HK| |exact HK|]; change (zlen []) with 0;
       (destruct (Z.lt_ge_cases i 0); [left; lia|right; nia]).
   - destruct (Hpos ltac:(lia)) as (Hb & Hht & Hla & Hhts). exists r'. split; [reflexivity|].
+    assert (Hg1 : 0 <= (g' - 1) * K) by nia.
     destruct (n =? 0) eqn:E2; [lia|]. fold p.
     assert (Hf : fidx K p = g' - 1) by (apply fidx_unique; [exact HK|lia]).
     constructor; cbn [chain saved]; rewrite ?Hf.
@@ -929,4 +933,178 @@ Proof.
     + rewrite Hla. apply take_ge. rewrite drop_length. unfold zlen in *. nia.
     + intros id. rewrite Hhts, find_id_from. reflexivity.
     + intros i. rewrite Hst. f_equal. symmetry. apply take_ge. unfold zlen in *. lia.
+Qed.
+
+(* ---------------------------------------------------------------------------------------- *)
+(* One step of the model against one step of the specification                               *)
+
+Lemma revert_reject_unchanged :
+  forall (K : Z) (rm_err : bool) (r : repo) (st : store) (t : Z),
+    t > height r \/ t < 0 -> revert K rm_err r st t = (Err EGeneric, r, st).
+Proof.
+  intros K rm_err r st t Ht. unfold revert.
+  destruct (t >? height r) eqn:E1; [reflexivity|].
+  destruct (t <? 0) eqn:E2; [reflexivity|lia].
+Qed.
+
+Lemma step_R K rm_err r st a o :
+  0 < K -> R K r st a -> op_valid a o = true ->
+  exists r' st', step K rm_err (r, st) o = ((r', st'), snd (spec_step K a o)) /\
+                 R K r' st' (fst (spec_step K a o)).
+Proof.
+  intros HK HR Hv. pose proof (R_height _ _ _ _ HR) as Hh.
+  destruct o as [id prev time|first n|t| | | | |id|id|h|h|h|h|h maxc| ].
+  - (* OAdd *)
+    exists (fst (add K r st (Header id prev time))), (snd (add K r st (Header id prev time))).
+    cbn [step spec_step fst snd]. rewrite <- surjective_pairing. split; [reflexivity|].
+    apply (add_R K r st a (Header id prev time) HK HR). exact Hv.
+  - (* OAddN *)
+    destruct (last_hash_spec K r st a HK HR) as (x & Hlast & Hlh).
+    rewrite spec_step_addn. cbn [step fst snd]. rewrite Hlast, Hlh.
+    exists (fst (add_n K r st (Z.to_nat n) first (hid x))),
+           (snd (add_n K r st (Z.to_nat n) first (hid x))).
+    rewrite <- surjective_pairing. split; [reflexivity|].
+    apply add_n_R; [exact HK|exact HR|exact Hv].
+  - (* ORevert *)
+    cbn [step spec_step]. unfold tip_height.
+    destruct ((t >? zlen (chain a) - 1) || (t <? 0)) eqn:E.
+    + rewrite revert_reject_unchanged by lia. exists r, st. split; [reflexivity|exact HR].
+    + destruct (revert_R K rm_err r st a t HK HR ltac:(lia)) as (r' & st' & -> & HR').
+      exists r', st'. split; [reflexivity|exact HR'].
+  - (* OSave *)
+    exists r, (save K r st). split; [reflexivity|]. apply save_R; assumption.
+  - (* OLoad *)
+    destruct (load_R K r st a HK HR) as (r' & Hl & HR'). cbn [step spec_step fst snd].
+    rewrite Hl. exists r', st. split; [reflexivity|exact HR'].
+  - (* OLastHeight *)
+    exists r, st. split; [|exact HR]. cbn [step spec_step snd]. unfold tip_height. rewrite Hh.
+    reflexivity.
+  - (* OLastHash *)
+    destruct (last_hash_spec K r st a HK HR) as (x & Hlast & Hlh).
+    exists r, st. split; [|exact HR]. cbn [step spec_step snd]. rewrite Hlast, Hlh. reflexivity.
+  - (* OContains *)
+    exists r, st. split; [|exact HR]. cbn [step spec_step snd].
+    rewrite (R_heights _ _ _ _ HR). reflexivity.
+  - (* OHeight *)
+    exists r, st. split; [|exact HR]. cbn [step spec_step snd].
+    rewrite (R_heights _ _ _ _ HR). reflexivity.
+  - (* OHash *)
+    exists r, st. split; [|exact HR]. cbn [step spec_step snd].
+    rewrite (get_hash_spec K r st a h HK HR). destruct (at_height (chain a) h); reflexivity.
+  - (* OBlockHash *)
+    exists r, st. split; [|exact HR]. cbn [step spec_step snd]. unfold block_hash, tip_height.
+    rewrite (get_hash_spec K r st a _ HK HR), Hh.
+    destruct (at_height (chain a) (if h =? -1 then zlen (chain a) - 1 else h)); reflexivity.
+  - (* OTime *)
+    exists r, st. split; [|exact HR]. cbn [step spec_step snd].
+    rewrite (get_time_spec K r st a h HK HR). destruct (at_height (chain a) h); reflexivity.
+  - (* OHeaderAt *)
+    exists r, st. split; [|exact HR]. cbn [step spec_step snd]. unfold header_at, tip_height.
+    rewrite (get_header_spec K r st a _ HK HR), Hh.
+    destruct (at_height (chain a) (if h =? -1 then zlen (chain a) - 1 else h)); reflexivity.
+  - (* OGetHeaders *)
+    exists r, st. split; [|exact HR]. cbn [step spec_step snd].
+    rewrite (get_headers_spec K r st a h maxc HK HR). reflexivity.
+  - (* OFiles *)
+    exists r, st. split; [|exact HR]. cbn [step spec_step snd].
+    rewrite (files_obs_spec K r st a HK HR). reflexivity.
+Qed.
+
+(* ---------------------------------------------------------------------------------------- *)
+(* Main theorems                                                                             *)
+
+Lemma run_from_refines K rm_err :
+  0 < K -> forall ops r st a,
+    R K r st a -> valid_from K a ops = true ->
+    run_from K rm_err (r, st) ops = spec_run_from K a ops.
+Proof.
+  intros HK. induction ops as [|o ops IH]; intros r st a HR Hv; [reflexivity|].
+  cbn [run_from spec_run_from valid_from] in *. apply andb_true_iff in Hv as [Hv1 Hv2].
+  destruct (step_R K rm_err r st a o HK HR Hv1) as (r' & st' & -> & HR').
+  destruct (spec_step K a o) as [a1 ob]. cbn [fst snd] in *. f_equal. apply IH; assumption.
+Qed.
+
+Theorem repo_refines :
+  forall (K : Z) (rm_err : bool) (ops : list op),
+    0 < K -> valid K ops = true -> run K rm_err ops = spec_run K ops.
+Proof.
+  intros K rm_err ops HK Hv. unfold run, spec_run.
+  pose proof (R_init K HK) as HR. destruct init_state as [r0 st0].
+  apply run_from_refines; assumption.
+Qed.
+
+Theorem repo_refines_real :
+  forall (rm_err : bool) (ops : list op),
+    valid blocksPerKey ops = true -> run blocksPerKey rm_err ops = spec_run blocksPerKey ops.
+Proof.
+  intros rm_err ops Hv. apply repo_refines; [unfold blocksPerKey; lia|exact Hv].
+Qed.
+
+Lemma spec_obs_no_panic K a o : chain a <> [] -> snd (spec_step K a o) <> [PANIC].
+Proof.
+  intros Hne. unfold PANIC.
+  destruct o as [id prev time|first n|t| | | | |id|id|h|h|h|h|h maxc| ];
+    try (rewrite spec_step_addn); cbn [spec_step snd]; unfold OK, ERR; try discriminate.
+  - destruct ((t >? tip_height (chain a)) || (t <? 0)); discriminate.
+  - destruct (last (chain a)) as [x|] eqn:E; [discriminate|].
+    apply last_None in E. contradiction.
+  - destruct (find_id (chain a) id); discriminate.
+  - destruct (at_height (chain a) h); discriminate.
+  - destruct (at_height (chain a) (if h =? -1 then tip_height (chain a) else h)); discriminate.
+  - destruct (at_height (chain a) h); discriminate.
+  - destruct (at_height (chain a) (if h =? -1 then tip_height (chain a) else h)); discriminate.
+Qed.
+
+Lemma spec_run_no_panic K (rm_err : bool) :
+  0 < K -> forall ops r st a,
+    R K r st a -> valid_from K a ops = true ->
+    Forall (fun o => o <> [PANIC]) (spec_run_from K a ops).
+Proof.
+  intros HK. induction ops as [|o ops IH]; intros r st a HR Hv; [constructor|].
+  cbn [spec_run_from valid_from] in *. apply andb_true_iff in Hv as [Hv1 Hv2].
+  destruct (step_R K rm_err r st a o HK HR Hv1) as (r' & st' & _ & HR').
+  pose proof (spec_obs_no_panic K a o (R_ne _ _ _ _ HR)) as Hnp.
+  destruct (spec_step K a o) as [a1 ob]. cbn [fst snd] in *.
+  constructor; [exact Hnp|]. apply (IH r' st' a1); assumption.
+Qed.
+
+Theorem queries_total :
+  forall (K : Z) (rm_err : bool) (ops : list op),
+    0 < K -> valid K ops = true -> Forall (fun o => o <> [PANIC]) (run K rm_err ops).
+Proof.
+  intros K rm_err ops HK Hv. rewrite (repo_refines K rm_err ops HK Hv). unfold spec_run.
+  pose proof (R_init K HK) as HR. destruct init_state as [r0 st0].
+  apply (spec_run_no_panic K rm_err HK ops r0 st0); assumption.
+Qed.
+
+(* ---------------------------------------------------------------------------------------- *)
+(* What the specification says                                                               *)
+
+Theorem spec_save_load_id :
+  forall (K : Z) (a : astate), chain a <> [] ->
+    chain (fst (spec_step K (fst (spec_step K a OSave)) OLoad)) = chain a.
+Proof.
+  intros K a Hne. cbn [spec_step fst chain saved]. pose proof (zlen_pos _ Hne) as Hp.
+  destruct (zlen (chain a) =? 0) eqn:E; [lia|]. cbn [chain].
+  apply take_ge. unfold zlen. lia.
+Qed.
+
+Theorem spec_revert :
+  forall (K : Z) (a : astate) (t : Z),
+    (0 <= t <= tip_height (chain a) ->
+       spec_step K a (ORevert t) = (AState (take (Z.to_nat (t + 1)) (chain a)) (t + 1), [OK])) /\
+    (~ 0 <= t <= tip_height (chain a) -> spec_step K a (ORevert t) = (a, [ERR])).
+Proof.
+  intros K a t. cbn [spec_step].
+  destruct ((t >? tip_height (chain a)) || (t <? 0)) eqn:E; split; intros Ht;
+    try reflexivity; lia.
+Qed.
+
+Theorem spec_getheaders :
+  forall (K : Z) (a : astate) (h maxc : Z), 0 <= h -> 0 <= maxc ->
+    snd (spec_step K a (OGetHeaders h maxc)) =
+      OK :: h :: Z.land h 4294967295 :: map hid (take (Z.to_nat maxc) (drop (Z.to_nat h) (chain a))).
+Proof.
+  intros K a h maxc Hh Hm. cbn [spec_step snd].
+  destruct (h =? -1) eqn:E; [lia|]. destruct (h <? 0) eqn:E2; [lia|]. reflexivity.
 Qed.
